@@ -293,7 +293,7 @@ def judge_rich(chk, c, obs, dropped):
 
 def main(tier, seed, scale=1.0):
     chk = Check(PROP, tier, seed)
-    n = int((320 if tier == "quick" else 25000) * scale)
+    n = int((960 if tier == "quick" else 25000) * scale)
     cap = 12 if tier == "quick" else 24
     chk.rule = ("random struct/enum definitions with 1..3 Into targets out of {u8, u16, W}; designation by marker (with "
                 "and without method), sole field, or unique same-typed field; every variant and value converted into "
